@@ -36,30 +36,33 @@ type In struct {
 	NB      []int   // binaries of source i: 1 or 2
 	Dep     [][]int // Dep[i][j]: 0 none, 1 / 2: source i build-depends on the first / second binary of source j
 	Field   [][]int // which field carries it: 0 Build-Depends, 1 Build-Depends-Arch, 2 Build-Depends-Indep
-	Deco    [][]int // how it is written, index into decoNames
+	Deco    [][]int // how it is written, index into decos
 	Unknown []int   // per source: 0 none, 1 / 2: a dependency on an unknown package first / last in Build-Depends
 	Fold    []int   // per source: 1 = its build-dependency fields are folded (one relation per continuation line)
 	FoldBin []int   // per source: 1 = Binary: folded onto a continuation line
-	Arch    string  // amd64 | i386
+	Arch    string  // amd64 | i386 | kfreebsd-amd64
 	Perm    []int   // input slice order: position p holds source Perm[p]
 }
 
 var fieldNames = []string{"Build-Depends", "Build-Depends-Arch", "Build-Depends-Indep"}
 
-var decoNames = []string{"b", "b (>= 1)", "b | other", "other [i386] | b", "b [amd64]", "b [!amd64]", "${misc:Depends}, b"}
-
 const (
 	otherPkg   = "otherpkg"
+	thirdPkg   = "thirdpkg" // stands in for "a binary of a third source" when there is no third source
 	unknownPkg = "zlib1g-dev"
+	phB        = "\x00b" // placeholder: the binary the dependency is on
+	phT        = "\x00t" // placeholder: the first binary of a third source (neither the depending nor the target one)
 )
 
 // alt / rel: the model of one alternative / one relation.
 type alt struct {
-	Name  string
-	Subst bool
-	Ver   string
-	Archs []string
-	Neg   bool
+	Name     string
+	Subst    bool
+	Qual     string   // multiarch qualifier: "native", "any"
+	Ver      string   // "(>= 1)" without the parentheses
+	Archs    []string // architecture restriction entries, without "!"
+	Neg      bool     // the entries are negated
+	Profiles string   // build-profile restriction formula as written, e.g. "<!nocheck>"
 }
 
 type rel struct{ Alts []alt }
@@ -69,6 +72,9 @@ func (a alt) String() string {
 		return "${" + a.Name + "}"
 	}
 	s := a.Name
+	if a.Qual != "" {
+		s += ":" + a.Qual
+	}
 	if a.Ver != "" {
 		s += " (" + a.Ver + ")"
 	}
@@ -82,6 +88,9 @@ func (a alt) String() string {
 		}
 		s += " [" + strings.Join(x, " ") + "]"
 	}
+	if a.Profiles != "" {
+		s += " " + a.Profiles
+	}
 	return s
 }
 
@@ -93,14 +102,33 @@ func (r rel) String() string {
 	return strings.Join(x, " | ")
 }
 
-// admits: the model of an architecture restriction (concrete names only, so equality).
+// splitArch: the model's own reading of a Debian architecture name or wildcard as (os, cpu): "cpu" = linux-cpu,
+// "os-cpu", "any" = any-any.
+func splitArch(name string) (os, cpu string) {
+	if name == "any" {
+		return "any", "any"
+	}
+	if k := strings.IndexByte(name, '-'); k >= 0 {
+		return name[:k], name[k+1:]
+	}
+	return "linux", name
+}
+
+// entryMatches: one architecture-list entry (concrete name or wildcard) against a concrete build architecture.
+func entryMatches(entry, buildArch string) bool {
+	eo, ec := splitArch(entry)
+	bo, bc := splitArch(buildArch)
+	return (eo == "any" || eo == bo) && (ec == "any" || ec == bc)
+}
+
+// admits: a restriction list admits the architecture iff (some entry matches it) != (the list is negated).
 func (a alt) admits(arch string) bool {
 	if len(a.Archs) == 0 {
 		return true
 	}
 	hit := false
 	for _, x := range a.Archs {
-		if x == arch {
+		if entryMatches(x, arch) {
 			hit = true
 		}
 	}
@@ -108,6 +136,8 @@ func (a alt) admits(arch string) bool {
 }
 
 // chosen: "per relation the first alternative applicable to the architecture" (substvars are not packages).
+// Build-profile restrictions in the alphabet are all-negated (<!nocheck>), i.e. satisfied when no profile is
+// active, so they never remove an alternative; multiarch qualifiers and versions do not either.
 func (r rel) chosen(arch string) (int, bool) {
 	for i, a := range r.Alts {
 		if a.Subst {
@@ -120,23 +150,136 @@ func (r rel) chosen(arch string) (int, bool) {
 	return 0, false
 }
 
-// decorate returns the relation(s) for a dependency on binary b written in style d.
-func decorate(d int, b string) []rel {
-	switch d {
-	case 1:
-		return []rel{{[]alt{{Name: b, Ver: ">= 1"}}}}
-	case 2:
-		return []rel{{[]alt{{Name: b}, {Name: otherPkg}}}}
-	case 3:
-		return []rel{{[]alt{{Name: otherPkg, Archs: []string{"i386"}}, {Name: b}}}}
-	case 4:
-		return []rel{{[]alt{{Name: b, Archs: []string{"amd64"}}}}}
-	case 5:
-		return []rel{{[]alt{{Name: b, Archs: []string{"amd64"}, Neg: true}}}}
-	case 6:
-		return []rel{{[]alt{{Name: "misc:Depends", Subst: true}}}, {[]alt{{Name: b}}}}
+// deco is one way of writing a dependency on a binary: relation templates over the placeholders phB / phT.
+type deco struct {
+	name string
+	rels []rel
+}
+
+// archLists: the architecture-restriction alphabet. One- and multi-entry lists, negated and not, containing the
+// build architecture in the first / a later / no entry, OS and CPU wildcards, concrete non-linux names.
+var archLists = []struct {
+	neg bool
+	e   []string
+}{
+	{false, []string{"amd64"}}, {true, []string{"amd64"}},
+	{false, []string{"amd64", "i386"}}, {false, []string{"arm64", "amd64"}}, {false, []string{"amd64", "arm64"}}, {false, []string{"arm64", "s390x"}},
+	{true, []string{"amd64", "i386"}}, {true, []string{"arm64", "amd64"}}, {true, []string{"amd64", "arm64"}}, {true, []string{"arm64", "s390x"}},
+	{true, []string{"arm64", "s390x", "i386"}}, {false, []string{"arm64", "s390x", "i386"}},
+	{false, []string{"linux-any"}}, {true, []string{"linux-any"}}, {false, []string{"kfreebsd-any"}}, {true, []string{"kfreebsd-any"}},
+	{true, []string{"linux-any", "kfreebsd-any"}}, {true, []string{"kfreebsd-any", "hurd-any"}}, {false, []string{"kfreebsd-any", "linux-any"}},
+	{false, []string{"any-amd64"}}, {true, []string{"any-amd64"}}, {false, []string{"any-amd64", "any-i386"}},
+	{false, []string{"any-i386", "any-arm64"}}, {true, []string{"any-i386", "any-arm64"}},
+	{false, []string{"kfreebsd-amd64", "hurd-i386"}}, {true, []string{"kfreebsd-amd64"}}, {false, []string{"kfreebsd-amd64", "amd64"}},
+	{false, []string{"any"}},
+}
+
+const (
+	nBasic = 7  // the original alphabet (indices are stable: old artefacts replay)
+	nCore  = 24 // + hand-picked compositions
+)
+
+// decos: basic (0..6), core (7..23), then the full product shapes × archLists.
+var decos = func() []deco {
+	b, t, o := phB, phT, otherPkg
+	one := func(a ...alt) []rel { return []rel{{a}} }
+	d := []deco{
+		{"", one(alt{Name: b})},
+		{"", one(alt{Name: b, Ver: ">= 1"})},
+		{"", one(alt{Name: b}, alt{Name: o})},
+		{"", one(alt{Name: o, Archs: []string{"i386"}}, alt{Name: b})},
+		{"", one(alt{Name: b, Archs: []string{"amd64"}})},
+		{"", one(alt{Name: b, Archs: []string{"amd64"}, Neg: true})},
+		{"", []rel{{[]alt{{Name: "misc:Depends", Subst: true}}}, {[]alt{{Name: b}}}}},
+		// core
+		{"", one(alt{Name: b, Archs: []string{"amd64", "i386"}, Neg: true})},
+		{"", one(alt{Name: b, Archs: []string{"arm64", "amd64"}, Neg: true})},
+		{"", one(alt{Name: o, Archs: []string{"amd64", "i386"}, Neg: true}, alt{Name: b})},
+		{"", one(alt{Name: o, Archs: []string{"arm64", "s390x"}, Neg: true}, alt{Name: b})},
+		{"", one(alt{Name: b, Archs: []string{"arm64", "amd64"}})},
+		{"", one(alt{Name: o, Archs: []string{"linux-any"}}, alt{Name: b})},
+		{"", one(alt{Name: b, Archs: []string{"linux-any", "kfreebsd-any"}, Neg: true})},
+		{"", one(alt{Name: o, Archs: []string{"any-i386", "any-arm64"}}, alt{Name: b})},
+		{"", one(alt{Name: b, Profiles: "<!nocheck>"})},
+		{"", one(alt{Name: b, Qual: "native"})},
+		{"", one(alt{Name: b, Qual: "any", Ver: ">= 1", Archs: []string{"amd64"}, Profiles: "<!nocheck>"})},
+		{"", one(alt{Name: "x:Depends", Subst: true}, alt{Name: b})},
+		{"", one(alt{Name: o, Archs: []string{"i386"}}, alt{Name: "x:Depends", Subst: true}, alt{Name: b})},
+		{"", one(alt{Name: t, Archs: []string{"amd64", "i386"}, Neg: true}, alt{Name: b})},
+		{"", one(alt{Name: b, Archs: []string{"i386", "arm64"}, Neg: true}, alt{Name: t})},
+		{"", one(alt{Name: b, Ver: ">= 1", Archs: []string{"amd64", "arm64"}, Profiles: "<!nocheck !nodoc>"})},
+		{"", one(alt{Name: o, Ver: "<< 2", Archs: []string{"kfreebsd-any"}}, alt{Name: b, Ver: ">= 1"})},
 	}
-	return []rel{{[]alt{{Name: b}}}}
+	if len(d) != nCore {
+		panic("c19: core decoration count")
+	}
+	seen := map[string]bool{}
+	name := func(rs []rel) string {
+		var x []string
+		for _, r := range rs {
+			x = append(x, r.String())
+		}
+		return strings.NewReplacer(phB, "b", phT, "T", otherPkg, "other").Replace(strings.Join(x, ", "))
+	}
+	for k := range d {
+		d[k].name = name(d[k].rels)
+		seen[d[k].name] = true
+	}
+	// full: restriction on b itself / on an unknown or third-source alternative before b / on b before another
+	// alternative / on b as a LATER alternative (after one that is never admitted)
+	for _, al := range archLists {
+		shapes := [][]rel{
+			one(alt{Name: b, Archs: al.e, Neg: al.neg}),
+			one(alt{Name: o, Archs: al.e, Neg: al.neg}, alt{Name: b}),
+			one(alt{Name: b, Archs: al.e, Neg: al.neg}, alt{Name: o}),
+			one(alt{Name: t, Archs: al.e, Neg: al.neg}, alt{Name: b}),
+			one(alt{Name: b, Archs: al.e, Neg: al.neg}, alt{Name: t}),
+			one(alt{Name: o, Archs: []string{"arm64", "s390x"}}, alt{Name: b, Archs: al.e, Neg: al.neg}),
+		}
+		for _, rs := range shapes {
+			if n := name(rs); !seen[n] {
+				seen[n] = true
+				d = append(d, deco{n, rs})
+			}
+		}
+	}
+	return d
+}()
+
+func decoNames(n int) []string {
+	var x []string
+	for _, d := range decos[:n] {
+		x = append(x, d.name)
+	}
+	return x
+}
+
+// decorate returns the relation(s) for a dependency on binary b written in style d; t is the first binary of a
+// third source (or thirdPkg).
+func decorate(d int, b, t string) []rel {
+	out := make([]rel, len(decos[d].rels))
+	for k, r := range decos[d].rels {
+		out[k].Alts = append([]alt(nil), r.Alts...)
+		for q := range out[k].Alts {
+			switch out[k].Alts[q].Name {
+			case phB:
+				out[k].Alts[q].Name = b
+			case phT:
+				out[k].Alts[q].Name = t
+			}
+		}
+	}
+	return out
+}
+
+// third: the first binary of the lowest-numbered source that is neither i nor j.
+func (in In) third(i, j int) string {
+	for t := 0; t < in.N; t++ {
+		if t != i && t != j {
+			return binName(t, 1)
+		}
+	}
+	return thirdPkg
 }
 
 func srcName(i int) string { return "src-" + string(rune('a'+i)) }
@@ -149,7 +292,7 @@ func (in In) valid() bool {
 		len(in.Unknown) != n || len(in.Fold) != n || len(in.FoldBin) != n || len(in.Perm) != n {
 		return false
 	}
-	if in.Arch != "amd64" && in.Arch != "i386" {
+	if in.Arch != archs[0] && in.Arch != archs[1] && in.Arch != archs[2] {
 		return false
 	}
 	seen := make([]bool, n)
@@ -174,7 +317,7 @@ func (in In) valid() bool {
 			if d < 0 || d > in.NB[j] || (i == j && d != 0) {
 				return false
 			}
-			if in.Field[i][j] < 0 || in.Field[i][j] > 2 || in.Deco[i][j] < 0 || in.Deco[i][j] >= len(decoNames) {
+			if in.Field[i][j] < 0 || in.Field[i][j] > 2 || in.Deco[i][j] < 0 || in.Deco[i][j] >= len(decos) {
 				return false
 			}
 		}
@@ -198,7 +341,7 @@ func (in In) fields(i int) [3][]fieldRel {
 		if in.Dep[i][j] == 0 {
 			continue
 		}
-		for _, r := range decorate(in.Deco[i][j], binName(j, in.Dep[i][j])) {
+		for _, r := range decorate(in.Deco[i][j], binName(j, in.Dep[i][j]), in.third(i, j)) {
 			fr := fieldRel{r, -1, 0}
 			for _, a := range r.Alts {
 				if !a.Subst && a.Name == binName(j, in.Dep[i][j]) {
@@ -308,7 +451,7 @@ func (in In) edgesInto(i int, arch string) []edge {
 				for k := 1; k <= in.NB[j]; k++ {
 					if a.Name == binName(j, k) {
 						es = append(es, edge{From: j, To: i, Bin: k,
-							FoldedLast: in.Fold[i] == 1 && q == len(rels)-1 && c == len(fr.r.Alts)-1 && a.Ver == "" && len(a.Archs) == 0})
+							FoldedLast: in.Fold[i] == 1 && q == len(rels)-1 && c == len(fr.r.Alts)-1 && a.Ver == "" && len(a.Archs) == 0 && a.Qual == "" && a.Profiles == ""})
 					}
 				}
 			}
@@ -371,7 +514,7 @@ func features(in In, es []edge) []string {
 // model edges INTO it per architecture. rowCache memoises it per row (the row determines the rendered text).
 type rowInfo struct {
 	dsc   *control.DSC
-	edges [2][]edge // index = position in archs
+	edges [3][]edge // index = position in archs
 }
 
 type parseCache map[string]*rowInfo
@@ -535,8 +678,10 @@ func prepare(in In, cache parseCache) ([]*rowInfo, *harnessProblem) {
 func evaluate(scen string, in In, rows []*rowInfo) verdict {
 	arch := parsedArch[in.Arch]
 	ai := 0
-	if in.Arch == archs[1] {
-		ai = 1
+	for k, a := range archs {
+		if a == in.Arch {
+			ai = k
+		}
 	}
 	var es []edge
 	for i := 0; i < in.N; i++ {
@@ -757,7 +902,7 @@ func clone(b In) In {
 	return in
 }
 
-var archs = []string{"amd64", "i386"}
+var archs = []string{"amd64", "i386", "kfreebsd-amd64"}
 
 var edgeClass = func() []string {
 	var x []string
@@ -818,7 +963,7 @@ func (w *witnesses) shardDone(total int, expired bool, st *mc.Stats) {
 
 // explore runs one scenario: all base graphs over n sources × architecture × the given input orders ×
 // all executions with at most k deviations (field, decoration, unknown dependency, folding).
-func explore(r *mc.Run, name string, n, k int, perms [][]int, permNote string, archSet []string, maxDeps int) {
+func explore(r *mc.Run, name string, n, k int, perms [][]int, permNote string, archSet []string, maxDeps, decoN int) {
 	var graphs []graph
 	for _, g := range baseGraphs(n) {
 		if maxDeps < 0 || g.deps(n) <= maxDeps {
@@ -829,8 +974,8 @@ func explore(r *mc.Run, name string, n, k int, perms [][]int, permNote string, a
 	nsh := (len(graphs) + chunk - 1) / chunk
 	bounds := map[string]interface{}{"sources": n, "binaries_per_source": "1|2", "base_graphs": len(graphs), "architectures": archSet,
 		"input_orders": permNote, "deviation_bound_k": k, "graphs_restricted_to_at_most_dependencies": maxDeps,
-		"deviation_points": "per dependency: field (3), decoration (7); per source: unknown dependency (none/first/last), build-dep fields folded, Binary folded",
-		"decorations":      decoNames}
+		"deviation_points": fmt.Sprintf("per dependency: field (3), decoration (%d);", decoN) + " per source: unknown dependency (none/first/last), build-dep fields folded, Binary folded",
+		"decorations":      decoNames(decoN)}
 	wit := &witnesses{}
 	r.Scenario(name, bounds, nsh, func(sh int, st *mc.Stats) bool {
 		defer func() { wit.shardDone(nsh, r.Expired(), st) }()
@@ -864,7 +1009,7 @@ func explore(r *mc.Run, name string, n, k int, perms [][]int, permNote string, a
 							if in.Dep[i][j] != 0 {
 								has = true
 								in.Field[i][j] = x.Deviate(3, "field")
-								in.Deco[i][j] = x.Deviate(len(decoNames), "decoration")
+								in.Deco[i][j] = x.Deviate(decoN, "decoration")
 							}
 						}
 						in.Unknown[i] = x.Deviate(3, "unknown-dependency")
@@ -928,17 +1073,25 @@ func Run(r *mc.Run) {
 		"folded build-dependency fields and a folded Binary field are counted as 'ordinary' .dsc (RFC822 continuation lines, as dpkg-source writes long fields)",
 	}
 	selfCheck(r)
-	debug.SetGCPercent(300) // the live heap is tiny; OrderDSCForBuild allocates a lot per call
-	both := archs
-	explore(r, "graphs-n1-k2", 1, 2, permutations(1), "all permutations", both, -1)
-	explore(r, "graphs-n2-k2", 2, 2, permutations(2), "all permutations", both, -1)
+	debug.SetGCPercent(300)         // the live heap is tiny; OrderDSCForBuild allocates a lot per call
+	both, three := archs[:2], archs // the third build architecture (non-linux) only where the whole decoration alphabet is explored
+	nFull := len(decos)
+	p1, p2, p3 := permutations(1), permutations(2), permutations(3)
+	const all = "all permutations"
+	explore(r, "graphs-n1-k2", 1, 2, p1, all, both, -1, nBasic)
+	explore(r, "graphs-n2-k2", 2, 2, p2, all, both, -1, nCore)
 	if r.Quick() {
-		explore(r, "graphs-n3-k1", 3, 1, permutations(3), "all permutations", both, -1)
-		explore(r, "graphs-n3-k2-upto2deps", 3, 2, permutations(3), "all permutations", both, 2)
+		explore(r, "graphs-n2-k1-alldecorations", 2, 1, p2, all, three, -1, nFull)
+		explore(r, "graphs-n3-k1", 3, 1, p3, all, both, -1, nCore)
+		explore(r, "graphs-n3-k1-upto2deps-alldecorations", 3, 1, p3, all, three, 2, nFull)
+		explore(r, "graphs-n3-k2-upto2deps", 3, 2, p3, all, both, 2, nBasic)
 	} else {
-		explore(r, "graphs-n3-k2", 3, 2, permutations(3), "all permutations", both, -1)
+		explore(r, "graphs-n2-k2-alldecorations", 2, 2, p2, all, three, -1, nFull)
+		explore(r, "graphs-n3-k1-alldecorations", 3, 1, p3, all, three, -1, nFull)
+		explore(r, "graphs-n3-k2-upto2deps", 3, 2, p3, all, both, 2, nCore)
+		explore(r, "graphs-n3-k2", 3, 2, p3, all, both, -1, nBasic)
 		// n = 4: every graph, every input order, default rendering (plain names: the architecture is irrelevant)
-		explore(r, "graphs-n4-k0", 4, 0, permutations(4), "all permutations", []string{"amd64"}, -1)
+		explore(r, "graphs-n4-k0", 4, 0, permutations(4), all, []string{"amd64"}, -1, nBasic)
 	}
 	r.Extra["distinct_dsc_texts_parsed_with_ParseDsc"] = atomic.LoadInt64(&textsParsed)
 }
@@ -948,19 +1101,39 @@ func Run(r *mc.Run) {
 func selfCheck(r *mc.Run) {
 	// worked examples
 	type ex struct {
-		d    int
+		d    string // decoration name
 		arch string
-		want bool // edge expected
+		want string // chosen package ("" = none)
 	}
-	for _, e := range []ex{{0, "amd64", true}, {1, "i386", true}, {2, "amd64", true}, {3, "amd64", true}, {3, "i386", false},
-		{4, "amd64", true}, {4, "i386", false}, {5, "amd64", false}, {5, "i386", true}, {6, "amd64", true}} {
-		in := blank(2)
-		in.Dep[0][1] = 1
-		in.Deco[0][1] = e.d
-		in.Arch = e.arch
-		got := len(in.modelEdges()) == 1
+	byName := map[string]int{}
+	for k, d := range decos {
+		byName[d.name] = k
+	}
+	for _, e := range []ex{{"b", "amd64", "b"}, {"b (>= 1)", "i386", "b"}, {"b | other", "amd64", "b"}, {"other [i386] | b", "amd64", "b"},
+		{"other [i386] | b", "i386", "other"}, {"b [amd64]", "amd64", "b"}, {"b [amd64]", "i386", ""}, {"b [!amd64]", "amd64", ""},
+		{"b [!amd64]", "i386", "b"}, {"${misc:Depends}, b", "amd64", "b"},
+		{"b [!amd64 !i386]", "amd64", ""}, {"b [!amd64 !i386]", "i386", ""}, {"b [!arm64 !amd64]", "amd64", ""}, {"b [!arm64 !amd64]", "i386", "b"},
+		{"other [!amd64 !i386] | b", "amd64", "b"}, {"other [!arm64 !s390x] | b", "amd64", "other"}, {"b [arm64 amd64]", "amd64", "b"},
+		{"b [arm64 amd64]", "i386", ""}, {"other [linux-any] | b", "i386", "other"}, {"b [!linux-any !kfreebsd-any]", "amd64", ""},
+		{"other [any-i386 any-arm64] | b", "amd64", "b"}, {"other [any-i386 any-arm64] | b", "i386", "other"},
+		{"b <!nocheck>", "amd64", "b"}, {"b:native", "i386", "b"}, {"${x:Depends} | b", "amd64", "b"},
+		{"T [!amd64 !i386] | b", "amd64", "b"}, {"b [!i386 !arm64] | T", "i386", "T"}, {"b [!i386 !arm64] | T", "amd64", "b"},
+		{"b [kfreebsd-amd64 amd64]", "amd64", "b"}, {"b [kfreebsd-amd64 amd64]", "i386", ""}, {"b [!kfreebsd-amd64]", "amd64", "b"},
+		{"b [any]", "i386", "b"}, {"other [arm64 s390x] | b [!any-i386 !any-arm64]", "amd64", "b"},
+		{"other [arm64 s390x] | b [!any-i386 !any-arm64]", "i386", ""}} {
+		d, ok := byName[e.d]
+		if !ok {
+			r.HarnessError("model self-check: decoration %q is not in the alphabet", e.d)
+			continue
+		}
+		got := ""
+		for _, rl := range decorate(d, "b", "T") {
+			if c, ok := rl.chosen(e.arch); ok {
+				got = strings.Replace(rl.Alts[c].Name, otherPkg, "other", 1)
+			}
+		}
 		if got != e.want {
-			r.HarnessError("model self-check: decoration %q on %s: edge=%v, expected %v", decoNames[e.d], e.arch, got, e.want)
+			r.HarnessError("model self-check: decoration %q on %s: chosen %q, expected %q", e.d, e.arch, got, e.want)
 		}
 	}
 	in := blank(3)
@@ -979,22 +1152,29 @@ func selfCheck(r *mc.Run) {
 		cross["Dpkg::Deps"] = "skipped (perl not installed)"
 		return
 	}
-	script := `use Dpkg::Deps; while(<STDIN>){chomp; my($a,$s)=split /\t/; my $d=deps_parse($s, reduce_arch=>1, host_arch=>$a, build_dep=>1);
+	script := `use Dpkg::Deps; while(<STDIN>){chomp; my($a,$s)=split /\t/; my $d=deps_parse($s, reduce_arch=>1, host_arch=>$a, build_dep=>1, reduce_profiles=>1, build_profiles=>[]);
  if(!defined $d){print "PARSEFAIL\n"; next}
  my @o; for my $x ($d->get_deps()){ if($x->isa('Dpkg::Deps::OR')){ my @y=$x->get_deps(); push @o,$y[0]->{package} } else { push @o,$x->{package} } }
  print join(",",@o),"\n" }`
 	var input strings.Builder
 	var wants []string
-	for d := range decoNames {
+	for d := range decos {
 		for _, a := range archs {
 			var txt, want []string
-			for _, rl := range decorate(d, "bin-b1") {
-				if rl.Alts[0].Subst {
-					continue // Dpkg::Deps needs substvars expanded; the relation is dropped on both sides
+			for _, rl := range decorate(d, "bin-b1", "bin-c1") {
+				// Dpkg::Deps needs substvars expanded: substvar alternatives are dropped on both sides
+				var keep rel
+				for _, al := range rl.Alts {
+					if !al.Subst {
+						keep.Alts = append(keep.Alts, al)
+					}
 				}
-				txt = append(txt, rl.String())
-				if c, ok := rl.chosen(a); ok {
-					want = append(want, rl.Alts[c].Name)
+				if len(keep.Alts) == 0 {
+					continue
+				}
+				txt = append(txt, keep.String())
+				if c, ok := keep.chosen(a); ok {
+					want = append(want, keep.Alts[c].Name)
 				}
 			}
 			fmt.Fprintf(&input, "%s\t%s\n", a, strings.Join(txt, ", "))
@@ -1017,7 +1197,7 @@ func selfCheck(r *mc.Run) {
 	for i, w := range wants {
 		if lines[i] != w {
 			bad++
-			r.HarnessError("model self-check: Dpkg::Deps disagrees on case %d: dpkg %q, model %q", i, lines[i], w)
+			r.HarnessError("model self-check: Dpkg::Deps disagrees on decoration %q for %s: dpkg %q, model %q", decos[i/len(archs)].name, archs[i%len(archs)], lines[i], w)
 		}
 	}
 	cross["Dpkg::Deps_decoration_x_arch_cases"] = len(wants)
